@@ -47,13 +47,16 @@ type Job struct {
 	IntMode string  `json:"intmode"`
 	// AllowPanic: an uncaught panic of the harness is a normal outcome, not a
 	// candidate violation.
-	AllowPanic bool              `json:"allow_panic"`
-	Tag        string            `json:"tag"` // free text copied to the result (configuration description)
-	MaxPaths   int               `json:"max_paths"`
-	MaxSteps   int               `json:"max_steps"`
-	OblCapMs   int               `json:"obl_cap_ms"`
-	MaxWallMs  int               `json:"max_wall_ms"`
-	Concrete   map[string]string `json:"concrete"` // self-test: variable values, no symbols
+	AllowPanic bool   `json:"allow_panic"`
+	Tag        string `json:"tag"` // free text copied to the result (configuration description)
+	MaxPaths   int    `json:"max_paths"`
+	MaxSteps   int    `json:"max_steps"`
+	OblCapMs   int    `json:"obl_cap_ms"`
+	MaxWallMs  int    `json:"max_wall_ms"`
+	// PreciseFeas: decide branch feasibility bit-precisely instead of with the
+	// UF abstraction of float arithmetic (fewer spurious paths, dearer queries)
+	PreciseFeas bool              `json:"precise_feas"`
+	Concrete    map[string]string `json:"concrete"` // self-test: variable values, no symbols
 }
 
 type Obligation struct {
@@ -398,7 +401,11 @@ func (in *Interp) feasible(c *term.Term) bool {
 			return true
 		}
 	}
-	sc := smt.Build(in.feasMode(), asserts)
+	fm := in.feasMode()
+	if in.job.PreciseFeas {
+		fm = in.preciseMode()
+	}
+	sc := smt.Build(fm, asserts)
 	kind := intSolver(asserts)
 	if in.job.Mode != "real" && hasFloat(asserts) {
 		kind = "cvc5"
